@@ -441,7 +441,7 @@ def composite_parts(rng, S):
 def oracle_composite(nodes, S, B=2):
     x, c = tagged(B, S)
     parts = [W.build(n) for n in nodes]
-    comp = CompositeTransform(parts)
+    comp = CompositeTransform(p for p in parts) if len(parts) % 2 == 0 else CompositeTransform(parts)   # a one-shot iterable is a documented argument
     match = {'wrapper': 'composite'}
     with torch.no_grad():
         y, ld = comp(x, c)
